@@ -70,6 +70,12 @@ pub fn xerr_sexp(e: &ExecutionError) -> Sexp {
 }
 
 pub fn run_impl(file: &File, tree: &Tree, src: &str, info: &TreeInfo, cfg: &RunCfg) -> ImplRun {
+    let mut graph = Graph::new();
+    run_impl_into(&mut graph, file, tree, src, info, cfg)
+}
+
+/// `execute_into` on an existing graph (which keeps whatever the run did, also on failure)
+pub fn run_impl_into<'t>(graph: &mut Graph<'t>, file: &File, tree: &'t Tree, src: &'t str, info: &TreeInfo, cfg: &RunCfg) -> ImplRun {
     let flag = CountingFlag { count: Cell::new(0), cancel_at: cfg.cancel_at };
     let r = catch_unwind(AssertUnwindSafe(|| {
         let functions = Functions::stdlib();
@@ -81,13 +87,12 @@ pub fn run_impl(file: &File, tree: &Tree, src: &str, info: &TreeInfo, cfg: &RunC
         if let Some((l, v, m)) = &cfg.debug {
             config = config.debug_attributes(Identifier::from(l.as_str()), Identifier::from(v.as_str()), Identifier::from(m.as_str()));
         }
-        let mut graph = Graph::new();
-        let res = file.execute_into(&mut graph, tree, src, &config, &flag);
+        let res = file.execute_into(graph, tree, src, &config, &flag);
         let outcome = match &res {
             Ok(()) => sexp::tagged("ok", vec![]),
             Err(e) => sexp::tagged("err", vec![xerr_sexp(e)]),
         };
-        (outcome, graph_sexp(&graph, Some(info)))
+        (outcome, graph_sexp(graph, Some(info)))
     }));
     match r {
         Ok((outcome, graph)) => ImplRun { outcome, graph: Some(graph), polls: flag.count.get() },
@@ -132,6 +137,10 @@ pub const FUEL: usize = 40;
 
 /// `(result outcome graph polls)` from the model (oracle questions answered on the way)
 pub fn run_model(drv: &mut Driver, table: &mut OracleTable, mi: &ModelInput, cfg: &RunCfg) -> Sexp {
+    run_model_into(drv, table, mi, cfg, &sexp::tagged("graph", vec![]))
+}
+
+pub fn run_model_into(drv: &mut Driver, table: &mut OracleTable, mi: &ModelInput, cfg: &RunCfg, graph0: &Sexp) -> Sexp {
     let globals = sexp::list(cfg.globals.iter().map(|(k, v)| sexp::list(vec![sexp::st(k), value_sexp(v, &crate::values::no_syn)])).collect());
     let debug = match &cfg.debug {
         None => sexp::tagged("debug", vec![opt_str(None), opt_str(None), opt_str(None)]),
@@ -153,7 +162,7 @@ pub fn run_model(drv: &mut Driver, table: &mut OracleTable, mi: &ModelInput, cfg
                 globals.clone(),
                 debug.clone(),
                 cancel.clone(),
-                sexp::tagged("graph", vec![]),
+                graph0.clone(),
                 orc.clone(),
                 sexp::nat(FUEL),
             ],
